@@ -51,6 +51,17 @@ def generate(rng, tier):
     t = gen_tree.gen_crate(rng, base="c", max_files=5, feats=feats, body=body)
     files = dict(t.files)
     srcs = list(t.reach)
+    # line-ending / BOM variants: the original *bytes* must survive, not a normalised text
+    for f in srcs:
+        k = rng.below(100)
+        if k < 12:
+            files[f] = files[f].replace("\n", "\r\n")
+        elif k < 20:
+            files[f] = "\ufeff" + files[f]
+        elif k < 25:
+            files[f] = "\ufeff" + files[f].replace("\n", "\r\n")
+        elif k < 30:
+            files[f] = files[f].rstrip("\n")
     pre = [f for f in srcs if rng.chance(25)]
     leftovers = {}
     if rng.chance(30):
